@@ -155,6 +155,11 @@ class Prop:
                 cs.append(Case(self.mk(root, types, style), 'exh-1prop'))
             if any(len(k[3]) > 1 for k in combo if k[0] == 'R'):
                 cs.append(Case(self.mk(root, types, 'root', mixed=True), 'exh-1prop-mixed-annotated'))
+            # the same graph with `nullable: true` on the root value of one type (null is then an instance of that type)
+            for j in range(1, ntypes + 1):
+                tn = dict(types)
+                tn[j] = ('O', 0, 1, [combo[j]])
+                cs.append(Case(self.mk(root, tn, 'root'), 'exh-1prop-nullable-type'))
             count += 1
         # the root with two properties (order matters: an earlier choice whose failed alternative leaves state behind)
         k2 = prop_kinds([0, 1, 2])
@@ -179,6 +184,11 @@ class Prop:
                 root = nodes.pop(0)
                 for style in ('root', 'all'):
                     cs.append(Case(self.mk(root, nodes, style), 'chain-%d' % k))
+                if weak is None:
+                    for j in nodes:
+                        nn = dict(nodes)
+                        nn[j] = ('O', 0, 1, nodes[j][3])
+                        cs.append(Case(self.mk(root, nn, 'root'), 'chain-%d-nullable-type' % k))
         # random graphs over up to 6 types, up to 3 properties, nested objects
         nrand = 1500 if tier == 'quick' else 30000
         for _ in range(nrand):
@@ -200,7 +210,7 @@ class Prop:
                 return (n[0], 0) + tuple(n[2:])
 
             def robj():
-                return ('O', 0, 0, [rnode(1) for _ in range(rng.randint(0, 3))])
+                return ('O', 0, int(rng.random() < 0.15), [rnode(1) for _ in range(rng.randint(0, 3))])
             root = robj()
             types = {i: robj() for i in range(1, nt + 1)}
             cs.append(Case(self.mk(root, types, rng.choice(['root', 'all']), mixed=rng.random() < 0.3), 'random'))
